@@ -41,7 +41,7 @@ CLAIMED = {
          "NOT decided: Bragg's law, d-spacing invariances, reciprocal-metric agreement, Friedel's law, flag additivity, (0,0,0) Debye reduction (real algebra over libm); bounded to 2 atoms"),
  "C14": ("other", "per-operation preservation of the representation invariant from an arbitrary well-formed array of each shape (capacity, fill) within the bound; executable contracts for qsort/bsearch; leak and double-free checks",
          "add (incl. growth beyond capacity, duplicates rejected with the collection unchanged, independent copy, recomputed volume, sorted order), lookup / copy, list, init, free, built-in collection refusing to grow - inductive over histories because every operation maps well-formed states to well-formed states",
-         "bounded: capacity <= 2 (quick) / 3 (thorough), one-character names, 1 / 2 atoms; Crystal_ReadFile (stdio) not covered"),
+         "bounded: capacity <= 3 (quick) / 4 (thorough) with every fill level, one-character symbolic names, 1 / 2 atoms; Crystal_ReadFile (stdio) not covered"),
  "C15": ("proof", "constant-data lemmas over the real catalogue initialisers (compiled into the harness unit) + lookup lemmas on the real bodies with leak checks + symbol round trip",
          "NIST / radionuclide / element data well-formedness, index macros name the entries at their positions, by-index = independent deep copy for every entry, by-name agrees, out of range / unknown / NULL = NULL + one error, nothing left allocated, symbol <-> Z bijection",
          "built-in crystal catalogue (19 MB generated file) and 'nuclide lines have an energy for the daughter' are not part of this check; by-name lookup for 8 entries in quick, all 180 in thorough; lfind by executable contract"),
